@@ -581,6 +581,9 @@ fn gen_packet_raw(rng: &mut Rng, sw: &Swarm, t: u8) -> Ast {
         }
         8 => {
             let n = if rng.chance(1, 400) && !tiny() { *rng.pick(&[255usize, 256, 257, 300]) } else { 1 + rng.small(5) };
+            // long lists carry short filters (a 300 x 64 KiB SUBSCRIBE would only slow the sweeps)
+            let small = Swarm { big_permil: 0, ..sw.clone() };
+            let sw_f = if n > 8 { &small } else { sw };
             let mut topics: Vec<(Bs, u8)> = (0..n)
                 .map(|_| {
                     let o = if v5 {
@@ -588,7 +591,7 @@ fn gen_packet_raw(rng: &mut Rng, sw: &Swarm, t: u8) -> Ast {
                     } else {
                         rng.below(3) as u8
                     };
-                    (gen_topic_filter(rng, sw), o)
+                    (gen_topic_filter(rng, sw_f), o)
                 })
                 .collect();
             // the same filter named twice in one packet (adjacent or not), possibly with other options
@@ -619,7 +622,9 @@ fn gen_packet_raw(rng: &mut Rng, sw: &Swarm, t: u8) -> Ast {
         }
         10 => {
             let n = if rng.chance(1, 400) && !tiny() { *rng.pick(&[255usize, 256, 257, 300]) } else { 1 + rng.small(5) };
-            let mut topics: Vec<Bs> = (0..n).map(|_| gen_topic_filter(rng, sw)).collect();
+            let small = Swarm { big_permil: 0, ..sw.clone() };
+            let sw_f = if n > 8 { &small } else { sw };
+            let mut topics: Vec<Bs> = (0..n).map(|_| gen_topic_filter(rng, sw_f)).collect();
             if rng.chance(1, 8) {
                 let i = rng.usize_below(topics.len());
                 let dup = topics[i].clone();
